@@ -987,6 +987,11 @@ CORPUS = [
     # the default group of the segment's own type as group_id, twice, with deferred optimise: a good cell
     {"ops": BASIC + [_seg(group_id="soma_group", optimise=False), _seg(parent=0, group_id="soma_group", frac4=1),
                      _seg(parent=1, group_id="dendrite_group", seg_type="dendrite", reorder=False)]},
+    # an unbranched section whose group IS the default group of its type (members, not includes): every segment in 'all'
+    {"ops": BASIC + [_seg(), {"op": "addUnbranched", "npoints": 4, "parent": 0, "frac4": 4, "group_id": "dendrite_group",
+                              "use_convention": True, "seg_type": "dendrite", "reorder": True, "optimise": True},
+                     {"op": "addUnbranched", "npoints": 3, "parent": 0, "frac4": 2, "group_id": "axon_group",
+                      "use_convention": True, "seg_type": "axon", "reorder": False, "optimise": False}]},
     # bad quantity accepted at build time (validate=False), refused by validate and the schema
     {"ops": [BASIC[0], BASIC[1], {"op": "addMembrane", "kind": "SpecificCapacitance", "value": "kilo", "group": "all", "via": "set"}, _seg()]},
 ]
@@ -1024,11 +1029,28 @@ def run(ctx):
     ctx.extra["optimise_segment_group_variant"] = "repaired (C14)" if variant["optFixed"] else "shipped"
     ctx.extra["add_segment_id_check"] = "on the stored id (proposed repair)" if variant["idFixed"] else "on the raw argument (shipped)"
     ctx.extra["add_segment_default_group_names"] = "refused (proposed repair)" if variant["namesFixed"] else "accepted (shipped)"
-    n = ctx.n(1200, 10000) * ctx.search_mult
+    n = ctx.n(1200, 10000)
     cases = [norm_case(json.loads(json.dumps(c))) for c in CORPUS]
     for i in range(n):
         cases.append(gen_case(ctx.rng, malformed=(i % 5 == 4)))
     run_cases(ctx, cases, variant)
+    if ctx.search_mult > 1:
+        # an obligation is broken (translator gap / proof no longer matches): look for a failing input with a larger budget,
+        # but BOUNDED — in batches, until a concrete failing input is there (an oracle failure that is not an open finding) or the extra time is used up (quick: ~100 s, thorough: ~8 min).  A rewrite that is
+        # merely not understood must not cost minutes of search.
+        import time
+        known = set(fw.known_findings("C15")) if hasattr(fw, "known_findings") else set()
+        budget = ctx.n(100, 480)
+        t0 = time.time()
+        done, total, batch = n, n * ctx.search_mult, ctx.n(300, 1000)
+
+        def found():
+            return any(f.get("key") not in known for f in ctx.failures)
+        while done < total and not found() and time.time() - t0 < budget:
+            more = [gen_case(ctx.rng, malformed=(i % 5 == 4)) for i in range(done, min(done + batch, total))]
+            run_cases(ctx, more, variant)
+            done += len(more)
+        ctx.extra["failing_input_search"] = {"extra_histories": done - n, "seconds": round(time.time() - t0, 1), "found": found()}
 
 
 def replay(ctx, payload):
